@@ -258,7 +258,12 @@ func (ex *Exec) timeYMD(t TimeV) (y, m, d *smt.Term) {
 func (ex *Exec) timeHMS(t TimeV) (h, mi, s *smt.Term) {
 	b := ex.b
 	sod := b.Mod(ex.localSec(t), ex.k(86400))
-	return b.Div(sod, ex.k(3600)), b.Div(b.Mod(sod, ex.k(3600)), ex.k(60)), b.Mod(sod, ex.k(60))
+	h, mi, s = b.Div(sod, ex.k(3600)), b.Div(b.Mod(sod, ex.k(3600)), ex.k(60)), b.Mod(sod, ex.k(60))
+	if ex.hmsOf == nil || ex.hmsB != b {
+		ex.hmsOf, ex.hmsB = map[[3]int]*smt.Term{}, b
+	}
+	ex.hmsOf[[3]int{h.ID, mi.ID, s.ID}] = sod // h*3600 + mi*60 + s == sod: lets mkDate put the pieces back together
+	return h, mi, s
 }
 
 // mkDate is time.Date with Go's normalisation of out-of-range fields.
@@ -286,7 +291,12 @@ func (ex *Exec) mkDate(y, m, d, h, mi, s, ns *smt.Term, loc *LocV) TimeV {
 	y1 := b.Add(y, b.Div(m0, ex.k(12)))
 	m1 := b.Add(b.Mod(m0, ex.k(12)), ex.k(1))
 	days := b.Add(ex.daysFromCivil(y1, m1, ex.k(1)), b.Sub(d, ex.k(1)))
-	secs := b.Add(b.Add(b.Add(b.Mul(days, ex.k(86400)), b.Mul(h, ex.k(3600))), b.Mul(mi, ex.k(60))), s)
+	var secs *smt.Term
+	if sod, ok := ex.hmsOf[[3]int{h.ID, mi.ID, s.ID}]; ok && ex.hmsB == b {
+		secs = b.Add(b.Mul(days, ex.k(86400)), sod) // the hour, minute and second of one instant: its second of the day
+	} else {
+		secs = b.Add(b.Add(b.Add(b.Mul(days, ex.k(86400)), b.Mul(h, ex.k(3600))), b.Mul(mi, ex.k(60))), s)
+	}
 	secs = b.Add(secs, b.Div(ns, ex.k(1000000000)))
 	nsec := b.Mod(ns, ex.k(1000000000))
 	t := TimeV{sec: b.Sub(secs, ex.locOffset(loc)), nsec: nsec, loc: loc}
@@ -590,6 +600,31 @@ func init() {
 		d := args[1].(*smt.Term)
 		b := ex.b
 		n := b.Add(t.nsec, d)
+		return TimeV{sec: b.Add(t.sec, b.Div(n, ex.k(1000000000))), nsec: b.Mod(n, ex.k(1000000000)), loc: t.loc}
+	})
+	// Truncate rounds down to a multiple of d since the zero time (year 1).
+	reg("(time.Time).Truncate", func(ex *Exec, fr *frame, pos token.Pos, args []value) value {
+		t := ex.asTime(args[0])
+		d := args[1].(*smt.Term)
+		b := ex.b
+		dc, ok := d.ConstInt()
+		if !ok {
+			panic(ex.unsupported("time.Truncate with a symbolic duration"))
+		}
+		if dc.Sign() <= 0 {
+			return t
+		}
+		abs := b.Add(t.sec, ex.k(62135596800))
+		// (for an instant before year 1 Go computes the floored remainder as well, which is what SMT mod gives)
+		total := b.Add(b.Mul(abs, ex.k(1000000000)), t.nsec)
+		r := b.Mod(total, d)
+		if dc.IsInt64() && 1000000000%dc.Int64() == 0 {
+			// d divides a second: only the nanoseconds change, the civil date and time stay
+			out := t
+			out.nsec = b.Sub(t.nsec, b.Mod(t.nsec, d))
+			return out
+		}
+		n := b.Sub(t.nsec, r)
 		return TimeV{sec: b.Add(t.sec, b.Div(n, ex.k(1000000000))), nsec: b.Mod(n, ex.k(1000000000)), loc: t.loc}
 	})
 	reg("(time.Time).AddDate", func(ex *Exec, fr *frame, pos token.Pos, args []value) value {
